@@ -139,8 +139,12 @@ def sources(src: int, e0: int, e1: int, e2: int, e3: int, v0: int, v1: int, v2: 
             source.append("extra")
         else:                                           # a numpy array
             hx.reach('ndarray')
-            source = np.arange(n) * 7 + 3
-            want = [int(x) for x in source]
+            if hx.P.get('float_array'):                 # decimal fractions: exactly representable as float64 only
+                source = np.array([i + 0.1 for i in range(n)])
+                want = [np.float64(i + 0.1) for i in range(n)]
+            else:
+                source = np.arange(n) * 7 + 3
+                want = [int(x) for x in source]
             env.add_cell_component("c", source)
             source[mut % n] = -1                       # later changes to the caller's array do not show through
         col = env.cells['c']
@@ -151,7 +155,7 @@ def sources(src: int, e0: int, e1: int, e2: int, e3: int, v0: int, v1: int, v2: 
             # the same object, an equal value of the same type, or - for numbers - the same numeric value (a column of
             # numbers may come back as numpy integers / floats of equal value)
             same = (a is b) or (type(a) is type(b) and a == b) or (
-                isinstance(b, (int, float)) and not isinstance(b, bool) and
+                isinstance(b, (int, float)) and not isinstance(b, (bool, np.floating)) and
                 isinstance(a, (int, float, np.integer, np.floating)) and not isinstance(a, bool) and a == b)
             if not same and src == 1 and hx.P.get('mode') == 'recorded' and b is None and isinstance(a, float) and a != a:
                 continue                  # F7, recorded behaviour: exactly the None cells hold NaN
@@ -206,6 +210,8 @@ def history(o0: int, o1: int, o2: int, nm0: int, nm1: int, nm2: int) -> bool:
                     hx.reach('add_failed')
             elif op in (0, 2):          # add (or overwrite) on world 0 / world 1
                 data = [(step + 1) * 100 + wi * 10 + i for i in range(n)]
+                if step % 2 == 1:         # every other source assigns text, and nothing (None) to one cell
+                    data = [None if i == 1 else "s%d.%d" % (step, i) for i in range(n)]
                 if name == 'pos':
                     # the set of cells must survive whatever happens to this request: refused, or stored elsewhere
                     try:
@@ -331,7 +337,8 @@ def obligations(tier):
     obs = [
         X("sources", sources, parts=[{"world": w, "src": sk} for w in worlds for sk in (0, 2, 3, 4)] +
           [{"world": w, "src": 1, "mut": mu} for w in worlds for mu in ((0, 2) if tier == "quick" else (0, 1, 2, 3))] +
-          [{"world": "line", "src": 1, "mut": 1, "alias": True}] + [{"world": w, "src": 0, "sized_callable": True} for w in ("line", "grid")],
+          [{"world": "line", "src": 1, "mut": 1, "alias": True}] + [{"world": w, "src": 0, "sized_callable": True} for w in ("line", "grid")] +
+          [{"world": "grid", "src": 2, "mut": 1, "float_array": True}],
           labels=("callable", "list", "ndarray", "constant", "nested"), labels_for=lambda p: (("callable", "list", "ndarray", "constant", "nested")[p["src"]],),
           timeout=1200, encoded=enc),
         X("none_among_numbers.prop", sources, parts=[{"world": "line", "src": 1, "mut": 0, "mode": "prop"}], labels=("none_among_numbers",),
